@@ -141,9 +141,9 @@ func (r *seqRun) declare(name, sort string) string {
 	}
 	return name
 }
-func (r *seqRun) newInt(p string) string { return r.declare(r.newName(p), "Int") }
+func (r *seqRun) newInt(p string) string  { return r.declare(r.newName(p), "Int") }
 func (r *seqRun) newBool(p string) string { return r.declare(r.newName(p), "Bool") }
-func (r *seqRun) newArr(p string) string { return r.declare(r.newName(p), "(Array Int Int)") }
+func (r *seqRun) newArr(p string) string  { return r.declare(r.newName(p), "(Array Int Int)") }
 func (r *seqRun) newArr2(p string) string {
 	return r.declare(r.newName(p), "(Array Int (Array Int Int))")
 }
@@ -613,7 +613,9 @@ func (w *World) verifySeq(con *Contract, fn *ssa.Function, res *FuncResult) {
 		"sequence mode: strings.Builder.WriteString appends and never fails; strings.EqualFold, strings.TrimSuffix, filepath.Base and other library calls on values return unknown results; termination of the loops is not proved",
 	)
 	for _, rq := range con.clauses("requires") {
-		res.Assumption = append(res.Assumption, "precondition of "+con.Func+" not discharged at its callers in the generator (configuration input): "+rq.Raw)
+		if hasTag(rq.Tags, "config") {
+			res.Assumption = append(res.Assumption, "precondition of "+con.Func+" on configuration input, not discharged at the callers in the generator: "+rq.Raw)
+		}
 	}
 	r := &seqRun{w: w, con: con, res: res, declSet: map[string]bool{}, ufs: map[string]string{}, facts: map[string]bool{}, safetyN: map[string]int{}}
 	defer func() {
